@@ -78,7 +78,7 @@ def cases(rng, tier):
         yield ("poly nullargs %s %s" % (hexcsv(cs), fhex(rnd_val(rng, 10))), "nullargs")
     yield ("poly extrema -", "extrema-empty")
     # --- roots
-    for i in range(n if tier == "thorough" else n // 16):
+    for i in range(n // 4 if tier == "thorough" else n // 16):
         deg = rng.choice([0, 1, 1, 2, 2, 3, 3, 3])
         mag = rng.choice([1, 10, 1000])
         while True:
@@ -95,7 +95,7 @@ def cases(rng, tier):
         yield ("poly extrema %s" % hexcsv(cs), "extrema%d" % deg)
     # aimed at the closed forms: a non-leading coefficient that is exactly zero (quadratic without linear term,
     # cubic without quadratic term, ...), roots exactly at 0 and 1, double roots
-    for i in range(n // 4 if tier == "thorough" else n // 10):
+    for i in range(n // 8 if tier == "thorough" else n // 10):
         deg = rng.choice([2, 2, 2, 3, 3])
         mag = rng.choice([1, 10, 1000])
         kind = rng.choice(["zero-coeff", "zero-coeff", "zero-coeff", "end-roots", "double"])
@@ -136,7 +136,7 @@ def cases(rng, tier):
     # aimed at the monotonicity shortcuts of touches / extrema: cubics whose slope has the same sign at both ends of [0,1]
     # and the opposite sign in between (Bezier control points up-down-up or down-up-down), right-hand sides taken in
     # the reversal, on both sides of p(0) and p(1)
-    for i in range(n // 2 if tier == "thorough" else n // 8):
+    for i in range(n // 8 if tier == "thorough" else n // 8):
         mag = rng.choice([1, 10, 1000])
         sg = rng.choice([1, -1])
         p0 = rng.uniform(-mag, mag)
